@@ -93,6 +93,10 @@ def generate(tier, rng):
         yield f'cbor.enc 1 i{-v-1}'
     for v in near([0, 24, 2**8, 2**16, 2**32, 2**62], 3, 0, 2**63 - 1):
         yield f'cbor.enc 1 a{v}'
+    for v in near([2**53, 2**52, 2**62, 2**63 - 512], 3, 0, 2**63 - 1) + [2**63 - 1 - d for d in range(0, 600, 37)] + [9007199254740993, 2**60 + 1, 2**61 + 3]:
+        yield f'cbor.enc 1 i{-v}'
+        yield f'cbor.enc 1 i{v}'
+        yield f'cbor.enc 2 i{-v} i{-v - 1}'
     for _ in range(2000 if not thorough else 50000):
         yield f'cbor.enc 1 u{rng.getrandbits(rng.randrange(1, 65))}'
         yield f'cbor.enc 1 i{rng.getrandbits(rng.randrange(1, 64)) * rng.choice([1, -1])}'
@@ -139,6 +143,14 @@ def generate(tier, rng):
             ents = [entry(k, val_script(rng, 2)) for k in keys]
             for perm in itertools.permutations(ents):
                 yield 'cbor.enc 1 m%d ' % n + ' '.join(' '.join(e) for e in perm)
+    # long keys (key and value buffers of one entry must not share storage): every length class incl. 23/24, 63..66, 254..257
+    for kl in [22, 23, 24, 25, 62, 63, 64, 65, 66, 100, 200, 253, 254, 255, 256, 257, 300, 1000]:
+        for kind in ('t', 'b'):
+            k1 = kind + hexs(bytes(rng.randrange(0x61, 0x7b) for _ in range(kl)))
+            k2 = kind + hexs(bytes(rng.randrange(0x61, 0x7b) for _ in range(kl)))
+            yield 'cbor.enc 1 m1 ' + ' '.join(entry(k1, ['t' + hexs(b'image/webp')]))
+            yield 'cbor.enc 1 m2 ' + ' '.join(entry(k1, ['b' + hexs(rbytes(rng, 40))]) + entry(k2, ['u7']))
+            yield 'cbor.enc 1 m2 ' + ' '.join(entry('u1', ['t' + hexs(b'v' * kl)]) + entry(k2, ['a2', 'u1', 'u2']))
     # duplicates: adjacent / non adjacent in every position
     for n in range(1, 5):
         for _ in range(20 if not thorough else 200):
